@@ -93,6 +93,10 @@ class C03(Check):
         solvers = []
         for _ in range(n_solvers):
             solvers.append({"shape": self._draw_shape(rng, dim, tier), "x_range": rng.choice(X_RANGES)})
+        if n_solvers == 2 and rng.random() < 0.4:
+            # two solver objects alive together that differ only in the domain length
+            solvers[1]["shape"] = list(solvers[0]["shape"])
+            solvers[1]["x_range"] = rng.choice([x for x in X_RANGES if x != solvers[0]["x_range"]])
         ops = []
         for _ in range(rng.randint(3, 12)):
             s = rng.randrange(n_solvers)
